@@ -108,7 +108,18 @@ def finish_trace(tr, stats):
     tr.append({"e": "stats", "creates": stats["creates"], "creator_ok": stats["creator_ok"], "alive_session": alive})
 
 
-def run_history(h, shape, creator_kind, servertype="multiplex"):
+def daemon_class(P, hookraise):
+    """the daemon's disconnect hook is application code: it may fail (both servers log and ignore that)"""
+    if not hookraise:
+        return P.Daemon
+
+    class HookRaisingDaemon(P.Daemon):
+        def clientDisconnect(self, conn):
+            raise RuntimeError("application hook failed")
+    return HookRaisingDaemon
+
+
+def run_history(h, shape, creator_kind, servertype="multiplex", hookraise=False):
     import Pyro5.api as P
     from Pyro5 import config
     config.SERVERTYPE = servertype
@@ -119,7 +130,7 @@ def run_history(h, shape, creator_kind, servertype="multiplex"):
 
     def main():
         sc = S.CUR
-        d = P.Daemon(host="127.0.0.1")
+        d = daemon_class(P, hookraise)(host="127.0.0.1")
         classes = make_classes(shape, creator_kind, stats)
         uris = {K: d.register(cls, K) for K, cls in classes.items()}
         drv = memnet.ServerDriver(d)
@@ -163,7 +174,7 @@ def run_history(h, shape, creator_kind, servertype="multiplex"):
     return tr
 
 
-def run_race(chooser, nclients, shape, creator_kind, tfilter):
+def run_race(chooser, nclients, shape, creator_kind, tfilter, hookraise=False):
     """first calls of several connections racing on the thread-pool server"""
     import Pyro5.api as P
     from Pyro5 import config
@@ -175,7 +186,7 @@ def run_race(chooser, nclients, shape, creator_kind, tfilter):
 
     def main():
         sc = S.CUR
-        d = P.Daemon(host="127.0.0.1")
+        d = daemon_class(P, hookraise)(host="127.0.0.1")
         classes = make_classes(shape, creator_kind, stats)
         uris = {K: d.register(cls, K) for K, cls in classes.items()}
         drv = memnet.ServerDriver(d)
@@ -234,9 +245,11 @@ def run(ctx):
     n_plain = ctx.pick(60, 600)
     n_creator = ctx.pick(25, 250)
     for shape in SHAPES:
-        for h in hs[:n_plain]:
-            traces.append(run_history(h, shape, "none"))
-            metas.append({"part": "history", "shape": shape, "creator": "none", "h": h})
+        for i, h in enumerate(hs[:n_plain]):
+            hr = i % 3 == 2
+            st = "thread" if i % 4 == 3 else "multiplex"
+            traces.append(run_history(h, shape, "none", servertype=st, hookraise=hr))
+            metas.append({"part": "history" + ("-threadserver" if st == "thread" else ""), "shape": shape, "creator": "none", "h": h, "hookraise": hr})
     for creator in CREATORS[1:]:
         for shape in ("truthy", "falsy_len"):
             for h in hs[n_plain:n_plain + n_creator]:
@@ -260,9 +273,12 @@ def run(ctx):
     for shape, creator, ncl, filt, (bound, limit, nrand) in (
             [(s, "none", 2, tfilter, (ctx.pick(2, 3), ctx.pick(40, 400), ctx.pick(30, 300))) for s in SHAPES] +
             [("truthy", "ok", 3, tfilter, (1, ctx.pick(25, 200), ctx.pick(25, 300))),
+             ("truthy", "hookraise", 2, tfilter, (1, ctx.pick(10, 100), ctx.pick(10, 100))),
              ("falsy_len", "ok", 2, tfilter, (1, ctx.pick(25, 200), ctx.pick(25, 300))),
              ("truthy", "none", 2, tfilter_wide, (1, ctx.pick(20, 300), ctx.pick(40, 600)))]):
         def once(ch):
+            if creator == "hookraise":
+                return run_race(ch, ncl, shape, "none", filt, hookraise=True)
             return run_race(ch, ncl, shape, creator, filt)
         for ch, tr in S.explore(once, max_preemptions=bound, limit=limit, rng=rng, random_runs=nrand):
             ctx.evaluations += 1
@@ -294,7 +310,8 @@ def replay(ctx, path):
         if meta["part"] == "race":
             print("replay of race cases: rerun the check (schedules are re-explored)")
             continue
-        tr = run_history(meta["h"], meta["shape"], meta["creator"], "thread" if "thread" in meta["part"] else "multiplex")
+        tr = run_history(meta["h"], meta["shape"], meta["creator"], "thread" if "thread" in meta["part"] else "multiplex",
+                         hookraise=meta.get("hookraise", False))
         v, _ = tlc.validate(ctx, "Trace_Inst", [tr], cfg="Trace_Inst.cfg")
         print("replay:", meta["shape"], meta["creator"], "->", v[0] or "accepted")
         bad += bool(v[0])
